@@ -32,6 +32,7 @@ const (
 	clsLikeArith     = "like_with_arithmetic"    // LIKE/MATCH bind tighter than arithmetic in the store-side parser
 	clsCtrlCharParam = "control_char_in_string"  // \r, NUL ... (only reachable through bound parameters) are printed raw
 	clsSignedOperand = "signed_operand_after_mul" // a * -b is built as a*(-1*b) without parentheses and re-read as (a*-1)*b
+	clsRegexOperand  = "regex_slash_plain_operand" // a regex holding '/' that is not the right side of =~ / !~ is scanned without unescaping, printing doubles the backslash
 	clsEmptyInSet    = "empty_string_in_set"      // IN ('') : the store-side set parser drops empty strings
 )
 
